@@ -81,7 +81,12 @@ Print Assumptions c01_short_schedules_fresh.
 Theorem c01_unconditional : forall k base fill n sched c,
   1 <= k <= 31 -> 0 <= base -> 0 <= fill <= 2 ^ k -> Z.of_nat (length sched) <= M32 ->
   run (seq_state k base fill n) sched = Some c ->
-  Inv k c /  0 <= tl (sh c) - hd (sh c) <= 2 ^ k /\ Z.of_nat (length (q (sh c))) = tl (sh c) - hd (sh c) /  replay (2 ^ k) (lin (sh c)) [] = Some (q (sh c)) /  (forall i v g, In (i, RPop v (Some g)) (hist c) -> v = Some g) /  ~ race c /  len_of (u32 (tl (sh c))) (u32 (hd (sh c))) (cap (sh c)) = Z.of_nat (length (q (sh c))).
+  Inv k c /\
+  0 <= tl (sh c) - hd (sh c) <= 2 ^ k /\ Z.of_nat (length (q (sh c))) = tl (sh c) - hd (sh c) /\
+  replay (2 ^ k) (lin (sh c)) [] = Some (q (sh c)) /\
+  (forall i v g, In (i, RPop v (Some g)) (hist c) -> v = Some g) /\
+  ~ race c /\
+  len_of (u32 (tl (sh c))) (u32 (hd (sh c))) (cap (sh c)) = Z.of_nat (length (q (sh c))).
 Proof. exact syncring_unconditional. Qed.
 Print Assumptions c01_unconditional.
 
